@@ -109,7 +109,7 @@ func genFields(t *rapid.T, min int) []Field {
 	var out []Field
 	for i := 0; i < n; i++ {
 		name := genName(t, fieldNames, "fieldname")
-		if seen[name] {
+		if seen[name] && rapid.Bool().Draw(t, "skip-repeated-field") {
 			continue
 		}
 		seen[name] = true
@@ -375,6 +375,13 @@ func nonASCII(s string) bool {
 func Classify(c Case) (bool, []string) {
 	lab := map[string]bool{}
 	nt := false
+	seenField := map[string]bool{}
+	for _, f := range c.Fields {
+		if seenField[string(f.Name)] {
+			lab["a form field set by two SetFormParam calls"] = true
+		}
+		seenField[string(f.Name)] = true
+	}
 	lab["kind "+c.Kind] = true
 	switch c.Kind {
 	case "form":
